@@ -137,7 +137,10 @@ pub fn random_json_schema(rng: &mut Rng) -> String {
         }
         format!("{{{}}}", parts.join(","))
     }
-    fn value(rng: &mut Rng, depth: usize) -> String {
+    fn value(rng: &mut Rng, depth: usize, nd: usize) -> String {
+        if nd > 0 && rng.chance(0.25) {
+            return format!("{{\"$ref\":\"#/$defs/d{}\"}}", rng.below(nd));
+        }
         match rng.below(if depth >= 2 { 7 } else { 10 }) {
             0..=2 => num(rng, true),
             3 => num(rng, false),
@@ -152,13 +155,13 @@ pub fn random_json_schema(rng: &mut Rng) -> String {
             7 => {
                 let lo = rng.below(3);
                 let hi = lo + rng.below(3);
-                format!("{{\"type\":\"array\",\"items\":{},\"minItems\":{lo},\"maxItems\":{hi}}}", value(rng, depth + 1))
+                format!("{{\"type\":\"array\",\"items\":{},\"minItems\":{lo},\"maxItems\":{hi}}}", value(rng, depth + 1, nd))
             }
-            8 => format!("{{\"anyOf\":[{},{}]}}", value(rng, depth + 1), value(rng, depth + 1)),
-            _ => object(rng, depth + 1),
+            8 => format!("{{\"anyOf\":[{},{}]}}", value(rng, depth + 1, nd), value(rng, depth + 1, nd)),
+            _ => object(rng, depth + 1, nd),
         }
     }
-    fn object(rng: &mut Rng, depth: usize) -> String {
+    fn object(rng: &mut Rng, depth: usize, nd: usize) -> String {
         let n = rng.range(1, 3);
         let names = ["a", "b", "c", "code", "n"];
         let mut props = vec![];
@@ -168,7 +171,7 @@ pub fn random_json_schema(rng: &mut Rng) -> String {
             if props.iter().any(|p: &String| p.starts_with(&format!("\"{name}\":"))) {
                 continue;
             }
-            props.push(format!("\"{name}\":{}", value(rng, depth)));
+            props.push(format!("\"{name}\":{}", value(rng, depth, nd)));
             if rng.chance(0.6) {
                 req.push(format!("\"{name}\""));
             }
@@ -179,7 +182,15 @@ pub fn random_json_schema(rng: &mut Rng) -> String {
             req.join(",")
         )
     }
-    let body = object(rng, 0);
+    // definitions referenced through $ref (some of them unsatisfiable: narrow numeric ranges,
+    // minLength above maxLength - the compiler has to reject the schema then, wherever the
+    // reference sits)
+    let nd = if rng.chance(0.3) { rng.range(1, 3) } else { 0 };
+    let defs: Vec<String> = (0..nd).map(|i| format!("\"d{i}\":{}", value(rng, 2, 0))).collect();
+    let mut body = object(rng, 0, nd);
+    if nd > 0 {
+        body = format!("{{\"$defs\":{{{}}},{}", defs.join(","), &body[1..]);
+    }
     if rng.chance(0.4) {
         // compact output: no flexible whitespace to hide in
         format!(
@@ -567,7 +578,8 @@ pub fn gen_world(rng: &mut Rng, o: &WorldOpts) -> (WorldSpec, bool) {
 }
 
 pub fn random_slices(rng: &mut Rng) -> Vec<String> {
-    let n = rng.range(1, 4);
+    // mostly short lists; some with many siblings and nested slices
+    let n = if rng.chance(0.3) { rng.range(3, 7) } else { rng.range(1, 4) };
     let mut v: Vec<String> = vec![];
     for _ in 0..n {
         let s = rng.pick(SLICE_POOL).to_string();
